@@ -896,7 +896,7 @@ func everyReceiptRule(p *Prog, r *Report, rule string) {
 		r.Anchor(rule, "node.(*core).processAcceptedInternalTransactions")
 		return
 	}
-	receipts := ssa.Value(fn.Params[2])
+	receipts := paramByType(fn, 2, "InternalTransactionReceipt")
 	var lp *loopInfo
 	for _, l := range naturalLoops(fn) {
 		if src, ok := loopSourceOf(fn, l); ok && src != nil && flowsFromLocal(src, func(x ssa.Value) bool { return x == receipts }) {
